@@ -23,8 +23,8 @@ LEVEL_TEXT = ""
 LEVEL_NOTE = ""
 PARTIAL = [
     "C01_statement (all programs, all histories) is false of today's code only through CAUGHT PANICS: a call that panics leaves stale verified nodes behind (C01_witness_after_panic, open known finding). F1, F2 (/repo 79c6822) and F22 with its consequences — spurious panic, re-entrant stale read — (/repo 340414a) were repaired; the model follows the repaired code",
-    "C01_incremental_partial carries ALL histories (sources, singletons, tracked fields, nested calls, retain, gc, any capacity) for programs whose call graph is acyclic by a rank on function indices, under CleanStore: at every call the called node and every node stored at that moment evaluate from scratch without panicking, and the fuel exceeds every rank. Not carried: cyclic programs (pico panics), histories in which some stored node would panic if re-evaluated (e.g. a node holding a removed SourceId that is never reached again), caught panics",
-    "C01_stage1_partial (nesting depth 0) and C01_stage2_single_epoch_partial (any program, writes-then-reads histories) need only CleanCalls (the calls themselves do not panic), not CleanStore",
+    "C01_incremental_partial carries ALL histories (sources, singletons, tracked fields, nested calls, retain, gc, any capacity) for programs whose call graph is acyclic by a rank on function indices, under CleanCalls only: every call of the history evaluates from scratch without panicking at the moment it is made, and the fuel exceeds every rank. Stored nodes that would panic if re-executed (a node holding a removed SourceId behind a guard) are allowed: the proof shows they are never reached. Not carried: cyclic programs (pico panics with `Cyclic dependency detected`), histories containing a call that panics (caught panics — the open finding lives exactly there)",
+    "C01_stage1_partial (nesting depth 0, no acyclicity hypothesis needed) and C01_stage2_single_epoch_partial (any program incl. cyclic ones, writes-then-reads histories) are kept as independent stages",
     "intern_ref appears only as ref functions (kind 3) whose value is the callee's value; intern_value and MemoRef parameters are not in the model",
 ]
 ASSUMPTIONS = [
